@@ -27,19 +27,20 @@ theorem MemberOk_value {outer inner : AEnv} {m : Members} {v : Expr} (h : Member
     their own are appended, whose expression (if kept) is the value expression of the member -/
 def AddedFields (m : Members) (layer r : Layer) : Prop :=
   ∃ fs : List Field, r = { layer with fields := layer.fields ++ fs } ∧
-    ∀ f ∈ fs, f.baseEnv = none ∧ ∀ ep, f.expr = some ep → memberValue m = some ep.1
+    ∀ f ∈ fs, f.baseEnv = none ∧ (∀ ep, f.expr = some ep → memberValue m = some ep.1) ∧
+      (f.thunk = none → f.expr.isSome = true)
 
 theorem AddedFields.refl (m : Members) (layer : Layer) : AddedFields m layer layer :=
   ⟨[], by simp, by simp⟩
 
 theorem AddedFields.of_added {m : Members} {v : Expr} {layer r : Layer} (hv : memberValue m = some v)
     (h : AddedField v none layer r) : AddedFields m layer r := by
-  obtain ⟨f, h1, h2, h3⟩ := h
+  obtain ⟨f, h1, h2, h3, h4⟩ := h
   refine ⟨[f], h1, ?_⟩
   intro g hg
   simp only [List.mem_singleton] at hg
   subst hg
-  exact ⟨h2, fun ep hep => by rw [h3 ep hep]; exact hv⟩
+  exact ⟨h2, fun ep hep => by rw [h3 ep hep]; exact hv, h4⟩
 
 section
 variable (cfg : Cfg) (rec : Task → M Value) (hrec : RecOk rec)
@@ -123,7 +124,8 @@ theorem binaryOp_spec (s : St) (op : BinOp) (l r : Value) (d : Nat) (hs : Bool) 
   all_goals vcprep
   all_goals first
     | sclose
-    | exact layers_extendObject' (by assumption) (hI.g.objs _ _ (by assumption)) (hI.g.objs _ _ (by assumption))
+    | exact ⟨layers_extendObject' (by assumption) (hI.g.objs _ _ (by assumption)) (hI.g.objs _ _ (by assumption)),
+        shape_extendObject' (by assumption) (hI.shape _ _ (by assumption)) (hI.shape _ _ (by assumption))⟩
 
 theorem sliceArg_spec (s : St) (env : EId) (d : Nat) (x : OptExpr) (hI : Inv s)
     (hT : ∀ e, x = .some e → TaskOk s.envs (.eval e env false d)) :
